@@ -28,6 +28,7 @@ pub enum Ty {
     NotSync,
     ZstA8,
     OptU32,
+    BoxStr,
     /// `Mutex<Cell<u32>>`: Send + Sync although it contains a Cell (C14 only)
     MutexCell,
     /// `fn(*const u8, usize) -> usize`: Send + Sync although a raw pointer appears in it (C14 only)
@@ -177,6 +178,15 @@ pub fn family() -> Vec<Def> {
                 Rm("a"), AddRm("tmq", TBox), Add("c", U8), Close(Basic),
             ],
         },
+        // a never-placed field that is more aligned than every placed one
+        Def {
+            name: "pendalign",
+            tier: "quick",
+            steps: vec![
+                Add("a", U32), AddRm("big", Over16), Add("b", U16), Close(Simple),
+                Add("c", U8), AddRm("huge", P24), Close(Simple),
+            ],
+        },
         // several zero-size fields (one droppable) added by one conversion next to a sized one
         Def {
             name: "zst2",
@@ -195,6 +205,25 @@ pub fn family() -> Vec<Def> {
                 Add("a", U64), Add("b", U32), Add("c", U16), Add("d", U8), Add("e", U8), Close(Simple),
                 Rm("b"), Rm("c"), Rm("d"), Add("p", U16), Add("q", U16), Add("r", U16), Add("s", U16), Close(Simple),
                 Rm("e"), Add("t", B3), Add("u", U16), Add("v", U8), Close(Simple),
+            ],
+        },
+        // a droppable field lying in memory between two may-be-uninit fields that are neighbours in declaration order
+        Def {
+            name: "interleave",
+            tier: "quick",
+            steps: vec![
+                Add("tag", Tracked), AddU("wide", P24), AddU("small", U32), Close(Simple),
+                AddU("x", U64), Add("y", TBox), AddU("z", U8), Close(Simple),
+                Rm("wide"), Add("v", Tracked), AddU("q", U16), Close(Simple),
+            ],
+        },
+        // owned strings
+        Def {
+            name: "strs",
+            tier: "quick",
+            steps: vec![
+                Add("a", U32), Add("s", BoxStr), Close(Simple),
+                Rm("a"), Add("t", BoxStr), AddU("n", U16), Close(Simple),
             ],
         },
         // optional values, the last fields being optional
@@ -299,6 +328,10 @@ fn add<R: truc::record::type_resolver::TypeResolver>(
         }
         Ty::ZstA8 => go!(ZstA8),
         Ty::OptU32 => go!(Option<u32>),
+        Ty::BoxStr => {
+            assert!(!uninit);
+            b.add_datum::<Box<str>, _>(name)
+        }
         Ty::MutexCell => named::<std::sync::Mutex<std::cell::Cell<u32>>, R>(b, name, "std::sync::Mutex<std::cell::Cell<u32>>"),
         Ty::FnPtr => named::<fn(*const u8, usize) -> usize, R>(b, name, "fn(*const u8, usize) -> usize"),
         Ty::NotSend => {
@@ -363,6 +396,7 @@ fn add_perturbed<R: truc::record::type_resolver::TypeResolver>(
         Ty::NotSync => go!(NotSync),
         Ty::ZstA8 => go!(ZstA8),
         Ty::OptU32 => go!(Option<u32>),
+        Ty::BoxStr => go!(Box<str>),
         Ty::MutexCell | Ty::FnPtr => panic!("no twins for the C14-only types"),
     }
     .unwrap_or_else(|e| panic!("add {}: {}", name, e))
@@ -391,7 +425,12 @@ pub fn build_with(def: &Def, perturb: Option<(&str, usize, Perturb)>) -> RecordD
             }
             Rm(n) => b.remove_datum(ids[n]).unwrap_or_else(|e| panic!("rm {}: {}", n, e)),
             AddRm(n, t) => {
-                let id = add(&mut b, n, *t, false);
+                let occ = *seen.get(n).unwrap_or(&0);
+                seen.insert(n, occ + 1);
+                let id = match &perturb {
+                    Some((pn, pocc, what)) if pn == n && *pocc == occ => add_perturbed(&mut b, n, *t, false, what),
+                    _ => add(&mut b, n, *t, false),
+                };
                 b.remove_datum(id).unwrap_or_else(|e| panic!("rm pending {}: {}", n, e));
             }
             Close(s) => {
